@@ -351,7 +351,9 @@ pub fn gen_tracker_case(seed: u64, o: &WorldOpts) -> TrackerCase {
             ob.vy = (ob.vy + (r.f32() * 1.0 - 0.5) * ob.accel * ob.accel).clamp(-8.0 * ob.accel, 8.0 * ob.accel);
             ob.height = (ob.height * ob.grow).clamp(8.0, 200.0);
             if let Some(a) = ob.angle.as_mut() {
-                *a += ob.dangle;
+                if ob.serial % 3 != 0 {
+                    *a += ob.dangle;
+                }
             }
             if ob.hidden > 0 {
                 ob.hidden -= 1;
@@ -370,7 +372,16 @@ pub fn gen_tracker_case(seed: u64, o: &WorldOpts) -> TrackerCase {
             let b = BoxF {
                 xc: ob.x + jitter(r, 2.0),
                 yc: ob.y + jitter(r, 2.0),
-                angle: ob.angle.map(|a| a + jitter(r, 0.02)),
+                // every third object keeps its orientation exactly (no jitter, no drift): equally
+                // oriented rotated boxes frame after frame; the jitter draw is still consumed
+                angle: ob.angle.map(|a| {
+                    let j = jitter(r, 0.02);
+                    if ob.serial % 3 == 0 {
+                        a
+                    } else {
+                        a + j
+                    }
+                }),
                 aspect: (ob.aspect + jitter(r, 0.02)).max(0.1),
                 height: ((ob.height + jitter(r, 1.0)) * (1.0 + jitter(r, 2.0 * ob.size_noise))).max(4.0),
                 conf: *r.pick(&[1.0f32, 1.0, 0.9, 0.6, 0.2, 0.01]),
